@@ -41,6 +41,7 @@ func c07Histories(tier string) []c07History {
 		{ID: "H7", What: "truncated remnant (30%) of the previous output", V1: func() (*Ty, []string) { return base(F("X", S)), all }, V2: func() (*Ty, []string) { return base(F("X", S), F("Z", I)), all }, Trunc: 30},
 		{ID: "H8", What: "truncated remnant (70%) of the previous output", V1: func() (*Ty, []string) { return base(F("X", S)), all }, V2: func() (*Ty, []string) { return base(F("X", S)), all }, Trunc: 70},
 	}
+	hs = append(hs, c07History{ID: "H11", What: "all derive calls removed: the file must be removed", V1: func() (*Ty, []string) { return base(F("X", S)), all }, V2: func() (*Ty, []string) { return base(F("X", S)), nil }})
 	if tier != "quick" {
 		hs = append(hs,
 			c07History{ID: "H9", What: "struct field becomes pointer", V1: func() (*Ty, []string) { return base(F("X", NStruct("Leaf", F("I", I), F("S", S)))), all }, V2: func() (*Ty, []string) {
@@ -113,7 +114,7 @@ func c07Sources(pkg string, t *Ty, plugins []string, withHarness bool, id string
 	files["calls.go"] = calls.String()
 	if withHarness {
 		var h strings.Builder
-		fmt.Fprintf(&h, "package %s\n\nimport \"%s/vxlib/vx\"\n\n", pkg, modPath)
+		fmt.Fprintf(&h, "package %s\n\nimport \"%s/vxlib/vx\"\n\nvar _ = vx.Cover\n\n", pkg, modPath)
 		var rt strings.Builder
 		fmt.Fprintf(&rt, "package %s\n\nimport (\n\t\"testing\"\n\n\t\"%s/vxlib/vx\"\n)\n\nfunc TestVXReplay(t *testing.T) {\n\tvx.Replay(t, map[string]func(){\n", pkg, modPath)
 		for _, x := range hs {
